@@ -186,6 +186,26 @@ P["C20"] = dict(
     ref="DESIGN.md section 3, C20",
 )
 
+P["C08"] = dict(
+    text="Access protocol of the spinlock, in Go and in the assembly routine: the lock word is touched only by atomic primitives, try/release have "
+         "the exact atomic shapes, and in archAcquireSpinlock (read through a small Plan 9 assembly CFG reader with reaching definitions) the only "
+         "memory write is an atomic exchange of a non-zero immediate through the state pointer and RET is reachable only through the zero side of "
+         "the test of the exchanged value. Mutual exclusion over all interleavings is a model-checking question and is NOT decided; this is the "
+         "necessary access discipline it rests on.",
+    technique="writers/readers-of (atomic-only access) + shape matching + assembly CFG with reaching definitions",
+    ref="DESIGN.md section 3, C08",
+    note_extra="The assembly reader understands only the mnemonics that occur in spinlock_amd64.s; an unknown mnemonic in the anchored function is reported as undecided (fail-closed).",
+)
+
+P["C10"] = dict(
+    text="Decoding structure of the multiboot reader: exact complement property of the type normalisation decided for all 2^32 values through "
+         "interval representatives (found and fixed F3), strides taken from the block's own headers, first-match / end-tag exits of the tag scan, "
+         "payload dereferenced only when present, provenance of every integer that becomes a pointer, non-empty ELF sections and RGB-only colour info. "
+         "Exact decoding of all blocks, reads past the block's end and command-line splitting are not decided.",
+    technique="comparison-set evaluation over interval representatives + SSA dominance + pointer provenance (taint) analysis",
+    ref="DESIGN.md section 3, C10",
+)
+
 ALL = ["C%02d" % i for i in range(1, 21)]
 
 def main():
